@@ -183,6 +183,30 @@ func runHsrvCase(t *testing.T, c map[string]any, tmp string) map[string]any {
 			return res
 		}
 	}
+	if pf := hstr(cfg, "pin_first"); "" != pf && "" != certFile {
+		/* A cache whose key pair's pin (base64 of the SHA-256 of its SubjectPublicKeyInfo, computed here) begins with a chosen character. */
+		for try := 0; ; try++ {
+			cp, kp, tc, err := sstls.GenerateSelfSignedCertificate("verif", nil, nil, 24*time.Hour)
+			if nil != err || 20000 < try {
+				res["fatal"] = fmt.Sprintf("pin_first: %v", err)
+				return res
+			}
+			leaf, err := x509.ParseCertificate(tc.Certificate[0])
+			if nil != err {
+				res["fatal"] = err.Error()
+				return res
+			}
+			h := sha256.Sum256(leaf.RawSubjectPublicKeyInfo)
+			pin := base64.StdEncoding.EncodeToString(h[:])
+			if strings.HasPrefix(pin, pf) {
+				if err := sstls.SaveCertificate(certFile, cp, kp); nil != err {
+					res["fatal"] = err.Error()
+					return res
+				}
+				break
+			}
+		}
+	}
 	if b, _ := cfg["expired_cache"].(bool); b && "" != certFile {
 		/* A cache created long ago: its certificate's lifespan has run out. */
 		if _, err := os.Stat(certFile); nil != err {
